@@ -50,6 +50,27 @@ Theorem c37_compaction_preserves_reads : forall l k, live_lookup (compact l) k =
 Proof. exact live_lookup_compact. Qed.
 Print Assumptions c37_compaction_preserves_reads.
 
+(* (full) the .idx observable of the check: idx entry i of a volume carries key and Size
+   of .dat record i and its offset leads back to record i — so "the AppendAtNs of idx
+   entry m" (readOffsetFromIndex m, readAppendAtNs) is the timestamp of record m, which
+   is what find_last_append_ns / binary_search_by_append_ns compute with.  No definition
+   of the model takes the NeedleMapper kind as an argument: the entries [idx_of] and the
+   answers [read] are what EVERY kind (memory, leveldb, leveldbMedium, leveldbLarge) has
+   to produce; the check compares the real .idx of the source after every operation (and
+   of the backup after every run) with [idx_of] under each kind. *)
+Theorem c37_idx_entry_points_at_record : forall l b i r,
+  nth_error l i = Some r ->
+  exists off, nth_error (idx_from b l) i = Some (r_key r, off, idx_size r) /\ rec_at_from b l off = Some r.
+Proof. exact idx_entry_points_at_record. Qed.
+Print Assumptions c37_idx_entry_points_at_record.
+
+Theorem c37_idx_entry_ts : forall v m r,
+  nth_error (recs v) m = Some r ->
+  exists k off sz, nth_error (idx_of v) m = Some (k, off, sz) /\
+                   option_map r_ts (rec_at v off) = Some (nth m (map r_ts (recs v)) 0).
+Proof. exact idx_entry_ts. Qed.
+Print Assumptions c37_idx_entry_ts.
+
 (* (full) the search's answer is not an artefact of the loop's fuel: any larger fuel
    gives the same position. *)
 Theorem c37_search_fuel_irrelevant : forall (l : list rec) since extra,
